@@ -273,7 +273,7 @@ def fabric_mutators_persist(R):
             MUT.add(b.fn)
     # not mutations of a persisted record by themselves: loading / wiping the whole table
     MUT -= {'fabric::Fabrics::load_persist', 'fabric::Fabrics::reset', 'fabric::Fabrics::reset_persist', 'fabric::Fabrics::add_load'}
-    R.floor('mutating methods of Fabric / Fabrics', len(MUT), 12)
+    R.floor('mutating methods of Fabric / Fabrics', len(MUT), 12 if 'groups' in (F.hdr.get('features') or '') else 10)
     EXC = {
         'handle_add_noc': 'AddNOC stages the fabric under the fail-safe: CommissioningComplete persists it, expiry rolls it back (C08)',
         'handle_update_noc': 'UpdateNOC stages the change under the fail-safe: CommissioningComplete persists it, expiry reloads the stored record (C08)',
@@ -306,5 +306,6 @@ def fabric_mutators_persist(R):
         stored = [c for c in STORE if c in seen]
         R.expect('P5', h, f'{name} mutates a fabric ({", ".join(m.split("::")[-1] for m in muts)}) and persists it', bool(stored), f'reaches {[c.split("::")[-1] for c in stored]}',
                  f'{name} can call {muts} but never reaches FabricPersist::store / ::remove: the change is acknowledged and lost at the next restart', f'{F.body(h).file}:{F.body(h).line}' if h in F.bodies else '')
-    R.floor('cluster handlers that mutate a fabric', n, 12)
+    # the groups / group-key / groupcast clusters exist only with the `groups` feature
+    R.floor('cluster handlers that mutate a fabric', n, 12 if 'groups' in (F.hdr.get('features') or '') else 4)
 
